@@ -226,6 +226,9 @@ func (c *Ctx) Eval(n int) {
 	}
 }
 
+// Checkpoint makes the counters so far survive a death of the process.
+func (c *Ctx) Checkpoint() { c.checkpoint() }
+
 // checkpoint rewrites the output file (Done=false) so that counters survive a death.
 func (c *Ctx) checkpoint() {
 	if c.OutPath == "" {
